@@ -391,3 +391,28 @@ def file_path(F):
 def mentions_field(e, adt, name):
     """expression e (helpers seen through) reads field `name` of struct `adt`"""
     return any(x[0] == 'field' and len(x) > 3 and x[3] == adt and x[2] == name for x in walk(e))
+
+
+# ---- bencode codec functions by signature ------------------------------------------------------------------------------
+
+def codec_fn(F, role):
+    """decoder functions identified by what they take and return (names are free to change):
+    values_vector (it, bool) -> Result<Vec<BValue>>; from_array (&[u8]) -> Result<Vec<BValue>>;
+    parse_byte_str -> Result<(Vec<u8>, Vec<u8>)>; parse_int -> Result<(i64, Vec<u8>)>;
+    parse_dict -> Result<HashMap<Vec<u8>, BValue>>; keys_from_list -> Result<Vec<Vec<u8>>>;
+    extract_int (it, usize) -> Result<Vec<u8>> in the decoder module"""
+    def go():
+        def ret(f):
+            return f.locals[0]['ty'].replace('std::result::Result<', '', 1)
+        cands = [f for f in F.user_fns() if f.path.startswith('bcodec::bdecoder::') and f.kind in ('Fn', 'AssocFn')]
+        sel = {
+            'values_vector': lambda f: ret(f).startswith('std::vec::Vec<bcodec::bvalue::BValue>') and C.params_of(f, r'^bool$') and C.params_of(f, r'Enumerate<'),
+            'from_array': lambda f: ret(f).startswith('std::vec::Vec<bcodec::bvalue::BValue>') and C.params_of(f, r'^&\[u8\]$') and not C.params_of(f, r'Enumerate<'),
+            'parse_byte_str': lambda f: ret(f).startswith('(std::vec::Vec<u8>, std::vec::Vec<u8>)'),
+            'parse_int': lambda f: ret(f).startswith('(i64, std::vec::Vec<u8>)'),
+            'parse_dict': lambda f: ret(f).startswith('std::collections::HashMap<std::vec::Vec<u8>, bcodec::bvalue::BValue>'),
+            'keys_from_list': lambda f: ret(f).startswith('std::vec::Vec<std::vec::Vec<u8>>'),
+            'extract_int': lambda f: ret(f).startswith('std::vec::Vec<u8>,') and C.params_of(f, r'Enumerate<'),
+        }[role]
+        return C.one([f for f in cands if sel(f)], 'decoder function in the role of %s' % role)
+    return _memo(F, ('codec_fn', role), go)
